@@ -21,6 +21,12 @@ CHECKS["C18"] = dict(level="exploration", technique="TLA+ Subst/Shape operators;
 CHECKS["C08"] = dict(level="model_checking", technique="TLA+ Pipeline phase machine (as-built knobs vs contract invariants) model-checked by TLC; TLC-enumerated edit/loss histories replayed on the real CLI and build driver under strace; traces validated by TLC (Trace_Pipeline)",
     text="TLC checks the contract invariants (success => every expected file present and current; never vouch for stale files) on the Pipeline model for every interleaving of <=2 environment steps, 3 runs, 1 fault, both drivers, with intended and as-built knobs; the histories TLC enumerates from the as-built model (26 output-affecting edit classes, loss of each generated file, events/commands/visualisation toggles) are executed on the real binary and the real BuildSystem driver and each run is judged by the trace specification against a differential oracle.",
     note="Bounded histories (<=1 env step exhaustively + sample quick; <=2 thorough). Oracle = forced run of the same binary. As-built drift is reported in the evidence. Trusted: strace, TLC.", ref="6 (C08)")
+CHECKS["C14"] = dict(level="model_checking", technique="TLA+ Pipeline model (C14_NoChangeNoWrite action property, C14_ForceRegenerates) checked by TLC for every iteration order; TLC-enumerated repeat and force histories replayed on the real CLI/build driver under strace; trace validation by TLC",
+    text="TLC checks on the Pipeline model that a non-forced run on an unchanged, cleanly generated project performs no mutation and that a run with --force or force:true rewrites every expected file, for both drivers, every iteration order and the four flag/config combinations; the TLC-enumerated repeat history (6 runs, 1..6 command files, fresh process each) and force histories (every cache state x flag/config combination) are executed on the real binaries under strace with bytes/mtime/inode comparison and judged by Trace_Pipeline.",
+    note="Known finding C14-build-probe (build driver's .write_test). Trusted: strace, TLC.", ref="6 (C14)")
+CHECKS["C17"] = dict(level="fault_enumeration", technique="TLA+ Pipeline model with fault plans model-checked by TLC (cache never vouches for stale files, in every state); TLC-enumerated fault histories executed on the real binaries with strace fault injection; trace validation by TLC",
+    text="Every fault plan TLC enumerates (open failure, write failure after truncation, or kill at each file of the write sequence incl. .typecache and the dependency-graph files, in a first run or after an output-changing edit, followed by recovery runs) is injected into the real CLI and the real build driver with strace; Trace_Pipeline checks that a failed write is reported, that no file is written after the cache record, that a further non-forced run would not report up to date over stale files, and that recovery ends current.",
+    note="Quick tier samples one history per (fault kind, file, position, viz); thorough runs all ~6000. failopen on .typecache also fails the read of the record (harness artefact, reported as drift).", ref="6 (C17)")
 NOT_YET = {}
 def main():
     props = [json.loads(l) for l in open(os.path.join(VERIF, "properties.jsonl"))]
